@@ -97,6 +97,42 @@ pub fn wide_cfg() -> GenCfg {
     }
 }
 
+/// up to 14 writes per system (write lists past the inline capacity of 10, in declared order)
+pub fn heavy_writers_cfg() -> GenCfg {
+    GenCfg {
+        max_ops: 20,
+        universe_max: 40,
+        extended_universe: true,
+        max_reads: 2,
+        max_writes: 14,
+        p_dep: 1,
+        p_barrier: 0,
+        p_batch: 0,
+        p_tl: 0,
+        p_static: 0,
+        batch_decl: false,
+        ..GenCfg::default()
+    }
+}
+
+/// more than 64 distinct resources in one builder
+pub fn many_resources_cfg() -> GenCfg {
+    GenCfg {
+        max_ops: 40,
+        universe_max: 95,
+        extended_universe: true,
+        max_reads: 3,
+        max_writes: 3,
+        p_dep: 1,
+        p_barrier: 0,
+        p_batch: 0,
+        p_tl: 0,
+        p_static: 0,
+        batch_decl: false,
+        ..GenCfg::default()
+    }
+}
+
 pub fn dense_conflict_cfg() -> GenCfg {
     GenCfg {
         universe_max: 5,
@@ -283,6 +319,24 @@ pub fn subs_for(id: &str) -> Vec<Sub> {
                 80_000,
                 2_000_000,
             ),
+            sub(
+                p_builder::C19 {
+                    // write lists of up to 14 entries: past the inline capacity, in declared order
+                    cfg: heavy_writers_cfg(),
+                    name: "c19-metamorphic-heavy-writers",
+                },
+                60_000,
+                1_500_000,
+            ),
+            sub(
+                p_builder::C19 {
+                    // up to 95 distinct resources in one builder
+                    cfg: many_resources_cfg(),
+                    name: "c19-metamorphic-many-resources",
+                },
+                40_000,
+                1_000_000,
+            ),
         ],
         "C20" => vec![
             sub(
@@ -346,6 +400,30 @@ pub fn subs_for(id: &str) -> Vec<Sub> {
             3_000_000,
         )],
         "C01" => vec![
+            sub(
+                lp(
+                    "C01",
+                    "c01-layout-heavy-writers",
+                    "heavy-writer class: up to 14 writes per system (write lists past the inline capacity of 10, kept in declared order) over up to 40 of 96 resources",
+                    heavy_writers_cfg(),
+                    900,
+                    p_layout::o_c01,
+                ),
+                60_000,
+                1_500_000,
+            ),
+            sub(
+                lp(
+                    "C01",
+                    "c01-layout-many-resources",
+                    "many-resources class: up to 95 distinct resources (8 types x 12 dynamic ids spread over the u64 range) in one builder of up to 40 systems",
+                    many_resources_cfg(),
+                    900,
+                    p_layout::o_c01,
+                ),
+                40_000,
+                1_000_000,
+            ),
             sub(
                 lp(
                     "C01",
@@ -474,6 +552,27 @@ pub fn subs_for(id: &str) -> Vec<Sub> {
             ),
             250_000,
             4_000_000,
+        ), sub(
+            lp(
+                "C03",
+                "c03-layout-long",
+                "long class: up to 150 registrations of mostly unrelated systems with a barrier after every 5th op on average (dozens of effective barriers in one builder)",
+                GenCfg {
+                    max_ops: 150,
+                    p_barrier: 3,
+                    p_dep: 1,
+                    p_batch: 0,
+                    p_static: 0,
+                    universe_max: 24,
+                    max_reads: 1,
+                    max_writes: 1,
+                    ..GenCfg::default()
+                },
+                1500,
+                p_layout::o_c03,
+            ),
+            20_000,
+            500_000,
         )],
         "C04" => vec![
             sub(
@@ -1084,7 +1183,26 @@ pub fn sched_subs_for(id: &str) -> Vec<Sub> {
                 max_ops: 16,
                 ..wide_cfg()
             },
-        )],
+        ), Sub {
+            max_lanes: 4,
+            ..sub(
+                // the thread-local clause after a thread-local system panicked inside wait()
+                p_misc::C12AfterPanic {
+                    cfg: GenCfg {
+                        p_tl: 4,
+                        max_ops: 10,
+                        tl_in_batch: false,
+                        allow_multi: false,
+                        ..GenCfg::default()
+                    },
+                    property: "C15",
+                    name: "c15-after-thread-local-panic",
+                    only_async: true,
+                },
+                3_000,
+                100_000,
+            )
+        }],
         "C16" => vec![
             Sub {
                 max_lanes: 8,
@@ -1158,6 +1276,9 @@ pub fn sched_subs_for(id: &str) -> Vec<Sub> {
                     allow_multi: false,
                     ..GenCfg::default()
                 },
+                property: "C12",
+                name: "c12-after-panic",
+                only_async: false,
             },
             15_000,
             500_000,
